@@ -453,6 +453,14 @@ class VBSClusteringManager:
                 radius=float(vam_constants.MAX_CLUSTER_DISTANCE),
             )
             self._state = VBSState.VRU_ACTIVE_CLUSTER_LEADER
+            # A pending join / leave notification of the stand-alone phase ends here; left in place
+            # it would resume (long after its specified duration) once the cluster is broken up.
+            self._join_substate = _JoinSubstate.NONE
+            self._join_target_cluster_id = None
+            self._join_started = None
+            self._join_leave_started = None
+            self._leave_substate = _LeaveSubstate.NONE
+            self._leave_started = None
             logger.info(
                 "VBS state: VRU_ACTIVE_STANDALONE → VRU_ACTIVE_CLUSTER_LEADER "
                 "(cluster_id=%d, cardinality=%d)",
